@@ -238,6 +238,10 @@ def extract(targets=None, extra_flags=None, files=None, config="default",
     """
     if not os.path.exists(XZFACTS):
         raise AnalysisBroken("build/xzfacts missing: run MANIFEST.setup_cmd")
+    ov = os.environ.get("XZ_VERIF_OVERRIDE")
+    if ov and file_overrides is None:
+        # selftest only: analyse a mutated scratch copy of one source file
+        file_overrides = dict(x.split("=", 1) for x in ov.split(",") if "=" in x)
     entries = compdb.load(repo)
     if targets is None:
         targets = {"liblzma", "xz", "xzdec", "lzmadec", "lzmainfo"}
